@@ -1,6 +1,6 @@
 package main
 
-// The assumed size clause of types.Base.Invalid (the invalid value of a base
+// The size clause of types.Base.Invalid (verified against the body since round 8; these closed obligations remain as a second, independent reading of the table) (the invalid value of a base
 // type is as wide as the base type) is backed by a closed check over the two
 // tables it is read from: goinvalid[i] is written with a type of bsize[i]
 // bytes, for every base type but string.
